@@ -657,6 +657,46 @@ def run(ctx):
     ctx.rule('R10m', 'legacy methods derive the states they use from the caller\'s parsing state (C16 R16u)', 5)
     _c16.shim_state_derivation(ctx, 'R10m', repo.mod(_c16.WALKER))
 
+    # ---- R10n (C17 P2/P4): the expected-closing-delimiter table of a derived state
+    ctx.rule('R10n', 'the lookup tables cached on a parsing state (which closing delimiter a formula expects) are reused from '
+                     'the parent only when no field they depend on changes: `$` directly inside `\\(` or a math environment '
+                     'otherwise records the parent\'s delimiters and the dollar run is split wrongly (C17 P2, P4)', 4)
+    from . import c17 as _c17, c05 as _c05
+    _c17.run(_c05._filtered(_c05._Sub(ctx, 'R10n'), ('P2', 'P4')))
+
+    # ---- R10o: the collector reports a state change only when the state changed
+    ctx.rule('R10o', 'LatexNodesCollector.get_parser_parsing_state_delta(): "no change" (None) is decided by comparing the state '
+                     'the collector ended with against the state it started with, not by whether some construct handed in a '
+                     'delta: a no-op delta (\\verb through the legacy layer) inside a formula must not make the math parser '
+                     'hand its math-mode state on to what follows the formula', 2)
+    ncm = repo.mod('pylatexenc.latexnodes._nodescollector')
+    gd = ncm.functions.get('LatexNodesCollector.get_parser_parsing_state_delta')
+    if gd is None:
+        raise AnalysisError('anchor vanished: LatexNodesCollector.get_parser_parsing_state_delta')
+    try:
+        gcs = [c_ for c_ in symex.Walker(want_returns=True).run(gd) if c_.kind == 'return']
+    except symex.TooManyPaths:
+        gcs = []
+    if not gcs:
+        ctx.unknown('R10o', ncm, gd, 'no return found', construct='get_parser_parsing_state_delta')
+    for cs in gcs:
+        isnone = isinstance(cs.sub, ast.Constant) and cs.sub.value is None
+        cmp_ = None
+        for t_, p_ in cs.conds:
+            for a_, ap_ in symex._atoms(t_, p_):
+                if isinstance(a_, ast.Compare) and len(a_.ops) == 1 and isinstance(a_.ops[0], (ast.Is, ast.IsNot, ast.Eq, ast.NotEq)):
+                    sides = {unparse(a_.left), unparse(a_.comparators[0])}
+                    if sides == {'self.start_parsing_state', 'self.parsing_state'}:
+                        same = ap_ if isinstance(a_.ops[0], (ast.Is, ast.Eq)) else (not ap_)
+                        cmp_ = same
+        ctx.decide('R10o', cmp_ is not None and cmp_ == isnone, ncm, cs.node,
+                   '%s returned when the final state %s the start state' % ('None' if isnone else 'a delta', 'is' if isnone else 'is not'),
+                   'get_parser_parsing_state_delta returns %s on the path [%s], which does not compare self.parsing_state with '
+                   'self.start_parsing_state: a delta that changes nothing still makes the collector report a state change, and '
+                   'after `$a \\verb|x| b$` the text that follows is recorded in math mode'
+                   % ('None' if isnone else short(cs.sub, 50), ' & '.join(cs.cond_src())[-120:]),
+                   construct='get_parser_parsing_state_delta: %s' % ('no change' if isnone else 'changed state'))
+
     return 'other', (
         'Decides the places where the mode of a node is determined: the math parser\'s contents '
         'state and recorded fields, the walker events, the per-argument / per-body deltas, the '
